@@ -151,18 +151,27 @@ def run(ctx):
     ctx.assume("Sha256 / Shake128 / pairing are deterministic functions; FO-transform security is a cryptographic assumption")
 
 
+def _canon(s):
+    import re
+
+    for a in ("GroupEncoding::to_bytes(&Mul::mul(Group::generator(), Psk))", "GroupEncoding::to_bytes(&BlsSignatureCore::public_key(Psk))", "GroupEncoding::to_bytes(&Ppk)", "GroupEncoding::to_bytes(&*Pself.0)"):
+        s = s.replace(a, "PKBYTES")
+    s = re.sub(r"AsRef::as_ref\(&?(P[a-z_]+)\)", r"\1", s)
+    return s.replace("Pid", "Pmsg")
+
+
 def check_signer_sealer(ctx, P):
-    """For every scheme arm of encrypt_time_lock: the (tag, framing of the identifier) hashed by seal equals
-    what that scheme's signer hashes for a message = identifier."""
+    """Sibling agreement: for every scheme arm of encrypt_time_lock the (tag, framing of the identifier) hashed by
+    seal is the construction that scheme's signer hashes for message = identifier (own key = recipient key)."""
     f = ctx.need_fn("E3.signer", "PublicKey<C>::encrypt_time_lock")
     if f is None:
         return
     ev = evaluate(f)
     rows = K.core_call_table(ctx, P)
-    sign_class = {}
+    sign_nf = {}
     for r in rows:
         if r["sink"].endswith("core_sign") and r["fn"].name == "sign":
-            sign_class[SCHEME_TRAITS[r["fn"].trait_default_of]] = (r["tag"], r["msg"][0])
+            sign_nf[SCHEME_TRAITS[r["fn"].trait_default_of]] = (r["tag"], _canon(K._canon_nf(r)))
     n = 0
     for bb, s in sorted(ev.sites.items()):
         if s.callee[0] != "BlsTimeCrypt::seal":
@@ -173,25 +182,21 @@ def check_signer_sealer(ctx, P):
             if a_ == "SignatureSchemes":
                 vs = {v} if isinstance(v, str) else set(v)
                 schemes = vs if schemes is None else schemes & vs
-        # tag alternatives reaching this call
         dst = strip_sites(s.args[3])
         tags = {t.a[0] for t in subterms(dst) if t.op == "assoc"}
         idsegs = B.nf(ev, inline(P, s.args[2], 2, only=K.local_inliner(P)))
-        cls = "aug" if (len(idsegs) == 2 and idsegs[0][0] == "v" and idsegs[0][1].op == "call" and B.cname(idsegs[0][1]) == "GroupEncoding::to_bytes") else ("plain" if len(idsegs) == 1 else "other")
+        sealed = _canon(B.show_nf(idsegs))
+        pk_arg = F.projection_root(strip_sites(s.args[0]))
         for sch in sorted(schemes or {"Basic", "MessageAugmentation", "ProofOfPossession"}):
             n += 1
-            want = sign_class.get(sch)
-            want_cls = "aug" if want and want[1] == "aug" else "plain"
-            pk_ok = True
-            if cls == "aug":
-                r0 = F.projection_root(idsegs[0][1].a[1][0])
-                pk_ok = r0 is not None and r0[0].a[1] == "self"
+            want = sign_nf.get(sch)
+            ok = want is not None and sealed == want[1] and (want[0] in tags) and pk_arg is not None and pk_arg[0].a[1] == "self"
             ctx.ob(
                 "E3.signer",
                 "encrypt_time_lock/%s" % sch,
-                want is not None and cls == want_cls and pk_ok and (want[0] in tags),
-                "scheme %s: sealing hashes %s under %s; the %s signer hashes a %s message under %s" % (sch, B.show_nf(idsegs), sorted(tags), sch, want_cls, want[0] if want else None),
+                ok,
+                "scheme %s: sealing hashes `%s` under %s for the recipient key; the %s signer hashes `%s` under %s" % (sch, sealed, sorted(tags), sch, want[1] if want else None, want[0] if want else None),
                 where=where(f, bb),
-                sample={"scheme": sch, "sealed_id": B.show_nf(idsegs)},
+                sample={"scheme": sch, "sealed_id": sealed, "signed": want[1] if want else None},
             )
     ctx.floor("E3.signer", "scheme arms of encrypt_time_lock reaching seal", n, 3)
